@@ -146,6 +146,7 @@ class State:
         self.known: dict = {}
         self.depth = 0
         self.axiom_hooks = []
+        self.capture = None  # when a list: assumptions are collected (inside a quantifier body) instead of asserted
 
     # ---- fresh symbols
     def fresh_name(self, hint):
@@ -160,6 +161,14 @@ class State:
 
     # ---- path condition
     def assume(self, f):
+        if self.capture is not None:
+            if isinstance(f, SBool):
+                f = f.e
+            if not isinstance(f, bool):
+                self.capture.append(f)
+            elif not f:
+                self.capture.append(z3.BoolVal(False))
+            return
         if isinstance(f, bool):
             if not f:
                 raise PathEnd()
@@ -188,6 +197,8 @@ class State:
 
     def choose(self, conds) -> int:
         """Pick one of the mutually exclusive, jointly exhaustive conditions; fork over the feasible ones."""
+        if self.capture is not None:
+            raise Unsupported("a path fork inside a quantifier body (use non-forking helpers: both/either/ite/opt_eq)")
         conds = [c.e if isinstance(c, SBool) else (z3.BoolVal(c) if isinstance(c, bool) else c) for c in conds]
         if self.pos < len(self.decisions):
             i = self.decisions[self.pos][0]
